@@ -179,61 +179,103 @@ def _gname(gn):
 def trace_graph(g):
     """observation only: records which stage of Graph.solve positioned each gnode
     ('longest' = assign_longest, 'fixed' = assign_fixed1, 'dangling' = the start/end branches of
-    assign_stretchy1, 'between' = its two-known-nodes branch; 'between' carries ':offpath' when the
-    path that is walked is not the longest path whose stretch is used).  The wrappers call the
-    original methods and do not alter any result."""
-    how = {}
-    walked = {}
+    assign_stretchy1, 'between' = its two-known-nodes branch), the gnodes on the path walked by a
+    'between' call, and whether the position each stage assigned is the one its DOCUMENTED rule gives
+    (reference arithmetic written here from the comments/docstrings of schemgraph.py):
+       longest : cumulative edge size from 0 along the critical path
+       fixed   : placed neighbour -/+ size of a non-stretch edge
+       dangling: closest placed neighbour -/+ length of the path to it
+       between : from.pos + sum(size + (stretch if the edge is stretchy)),
+                 stretch = max(0, (separation - extent) / stretches) of the longest path
+    The wrappers call the original methods and do not alter any result."""
+    how, walked, rule_ok = {}, {}, {}
     o_longest, o_fixed1, o_s1 = g.assign_longest, g.assign_fixed1, g.assign_stretchy1
+    TOL = 1e-9
 
     def unknown_names():
         return set(_gname(gn) for gn in g.values() if gn.pos is None)
 
+    def byname():
+        return dict((_gname(gn), gn) for gn in g.values())
+
+    def settle(before, branch, expected, on_path=None):
+        nodes = byname()
+        for n in before - unknown_names():
+            how[n] = branch
+            if on_path:
+                walked[n] = on_path
+            rule_ok[n] = bool((n in expected) and abs(nodes[n].pos - expected[n]) < TOL)
+
     def assign_longest(path, unknown):
         before = unknown_names()
+        expected = {}
+        pos = 0
+        for edge in path:
+            expected.setdefault(_gname(edge.from_gnode), pos)
+            pos += edge.size
+        if len(path):
+            expected.setdefault(_gname(path[-1].to_gnode), pos)
         r = o_longest(path, unknown)
-        for n in before - unknown_names():
-            how[n] = 'longest'
+        settle(before, 'longest', expected)
         return r
 
     def assign_fixed1(gnode):
+        cands = []
+        for edge in gnode.fedges:
+            if not edge.stretch and edge.to_gnode.pos is not None and edge.to_gnode.name != 'end':
+                cands.append(edge.to_gnode.pos - edge.size)
+        for edge in gnode.redges:
+            if not edge.stretch and edge.to_gnode.pos is not None and edge.to_gnode.name != 'start':
+                cands.append(edge.to_gnode.pos + edge.size)
         r = o_fixed1(gnode)
         if r:
-            how[_gname(gnode)] = 'fixed'
+            n = _gname(gnode)
+            how[n] = 'fixed'
+            rule_ok[n] = bool(any(abs(gnode.pos - c) < TOL for c in cands))
         return r
 
     def assign_stretchy1(gnode, unknown):
         before = unknown_names()
         branch = '?'
         on_path = []
+        expected = {}
         try:
             to_path = g.path_to_closest_known(gnode, forward=True)
             from_path = g.path_to_closest_known(gnode, forward=False)
             tg, fg = to_path.to_gnode, from_path.to_gnode
             if fg.name == 'start' and tg.name == 'end':
                 branch = 'unlucky'
-            elif fg.name == 'start' or tg.name == 'end':
+            elif fg.name == 'start':
                 branch = 'dangling'
+                expected[_gname(gnode)] = tg.pos - to_path.dist
+            elif tg.name == 'end':
+                branch = 'dangling'
+                expected[_gname(gnode)] = fg.pos + from_path.dist
             else:
                 branch = 'between'
-                on_path = sorted(set(_gname(e.from_gnode) for e in list(from_path) + list(to_path)) |
-                                 set(_gname(e.to_gnode) for e in list(from_path) + list(to_path)))
+                fedges, tedges = list(reversed(from_path)), list(to_path)
+                on_path = sorted(set(_gname(e.from_gnode) for e in fedges + tedges) |
+                                 set(_gname(e.to_gnode) for e in fedges + tedges))
                 path = g.longest_path(fg, tg)
-                walked_len = from_path.dist + to_path.dist
-                nst = from_path.stretches + to_path.stretches
-                if abs(walked_len - path.dist) > 1e-9 or nst != path.stretches:
-                    branch = 'between:offpath'
+                stretches, separation, extent = path.stretches, tg.pos - fg.pos, path.dist
+                stretch = 0 if stretches == 0 else max(0, (separation - extent) / stretches)
+                pos = fg.pos
+                for edge in fedges:
+                    pos += edge.size + (stretch if edge.stretch else 0)
+                    if edge.from_gnode.pos is None:
+                        expected.setdefault(_gname(edge.from_gnode), pos)
+                for edge in tedges:
+                    pos += edge.size + (stretch if edge.stretch else 0)
+                    if edge.to_gnode.pos is None:
+                        expected.setdefault(_gname(edge.to_gnode), pos)
         except Exception:
             pass
         r = o_s1(gnode, unknown)
-        for n in before - unknown_names():
-            how[n] = branch
-            if on_path:
-                walked[n] = on_path
+        settle(before, branch, expected, on_path)
         return r
 
     g.assign_longest, g.assign_fixed1, g.assign_stretchy1 = assign_longest, assign_fixed1, assign_stretchy1
-    return how, walked
+    return how, walked, rule_ok
 
 
 def raw_solve(sch, method, out):
@@ -241,7 +283,7 @@ def raw_solve(sch, method, out):
     placer = schemplacer(sch.elements, sch.nodes, method, 0)
     placer._make_graphs()
     for ax, g in (('x', placer.xgraph), ('y', placer.ygraph)):
-        how, walked = trace_graph(g) if method == 'graph' else (None, None)
+        how, walked, rule_ok = trace_graph(g) if method == 'graph' else (None, None, None)
         with warnings.catch_warnings(record=True) as wl:
             warnings.simplefilter('always')
             try:
@@ -254,6 +296,7 @@ def raw_solve(sch, method, out):
         if how is not None:
             out[ax]['assigned'] = how
             out[ax]['walked'] = walked
+            out[ax]['rule_ok'] = rule_ok
         if method == 'lineq':
             # what Lineq.solve itself reported, and the shape of its LU factor (root-cause signatures)
             negs = []
